@@ -175,6 +175,11 @@ func scenarioC13(c *hlib.RunCtx) *hlib.Violation {
 	})
 	t := c.Tape
 	s := simrt.New(t, c.Dir, time.Date(2024, 1, 1, 0, 0, 0, 0, time.UTC))
+	// The worker's machine may be in any zone: days are UTC days whatever it is.
+	if z := t.Biased(4, 2, 3); z > 0 {
+		s.SetZone([]*time.Location{nil, time.FixedZone("UTC-8", -8*3600), time.FixedZone("UTC+14", 14*3600), time.FixedZone("UTC-3", -3*3600)}[z])
+		s.Probe("machine-in-local-zone")
+	}
 	s.KeepTrace = true
 	s.PermuteMaps = true
 	c.Sim = s
